@@ -1303,6 +1303,8 @@ class Module(ABC):
             # param sharing).
             synapse_inds = self.base.edges.groupby("type").rank()["global_edge_index"]
             synapse_inds = (synapse_inds.astype(int) - 1).to_numpy()
+            # Groups of unequal size are padded with `-1` (see `make_trainable`).
+            is_padding = jnp.asarray(inds) < 0
             if key in self.base.synapse_param_names:
                 inds = synapse_inds[inds]
 
@@ -1311,7 +1313,9 @@ class Module(ABC):
                 # `set_param` is of shape `(num_params,)`
                 # We need to unsqueeze `set_param` to make it `(num_params, 1)` for the
                 # `.set()` to work. This is done with `[:, None]`.
-                params[key] = params[key].at[inds].set(set_param[:, None])
+                # Padded entries are moved out of bounds such that they are dropped.
+                inds = jnp.where(is_padding, len(params[key]), inds)
+                params[key] = params[key].at[inds].set(set_param[:, None], mode="drop")
 
         # Compute conductance params and add them to the params dictionary.
         params["axial_conductances"] = self.base._compute_axial_conductances(
@@ -1360,7 +1364,10 @@ class Module(ABC):
                 # `set_param` is of shape `(num_params,)`
                 # We need to unsqueeze `set_param` to make it `(num_params, 1)` for the
                 # `.set()` to work. This is done with `[:, None]`.
-                states[key] = states[key].at[inds].set(set_param[:, None])
+                # Groups of unequal size are padded with `-1` (see `make_trainable`).
+                # Padded entries are moved out of bounds such that they are dropped.
+                inds = jnp.where(jnp.asarray(inds) < 0, len(states[key]), inds)
+                states[key] = states[key].at[inds].set(set_param[:, None], mode="drop")
 
         # Add to the states the initial current through every channel.
         states, _ = self.base._channel_currents(
